@@ -74,7 +74,13 @@ class World:
 
     def _build_mesh(self):
         d = self.dim
-        if self.uniform:
+        if self.uniform == 'faces':
+            # equispaced faces handed in as arrays, with a free origin and spacing per axis: f[i] = X0 + i*h
+            def mk(k):
+                x0, h = Rat.atom(('X0', AX[k])), Rat.atom(('h', AX[k]))
+                return Box(Arr((self.N[k] + 1,), lambda idx: x0 + idx[0] * h, 'real', root='arg.facelocation' + AX[k].upper()))
+            args = [mk(k) for k in range(d)]
+        elif self.uniform:
             args = list(self.N) + [Rat.atom(('L', AX[k])) for k in range(d)]
         else:
             args = [Box(self.face_array(k)) for k in range(d)]
